@@ -55,11 +55,11 @@ def enumerate_cases(tier, d):
         cases += [json.loads(ln[5:]) for ln in res.printed if ln.startswith("CASE ")]
         states += res.distinct
         trans += res.generated
-    if len(cases) > 400000:
+    if len(cases) > 200000:
         # the exhaustive configurations of the thorough tier are sampled down when the product grows beyond what can be run
         rnd = random.Random(seed())
         rnd.shuffle(cases)
-        cases = cases[:400000]
+        cases = cases[:200000]
     num = 1500 if tier == "quick" else 40000
     sim = run_tlc("Diag.tla", "Diag_sim.cfg", os.path.join(d, "tlc_diag_sim"), timeout=3000, workers=4,
                   simulate="num=%d" % num, extra=["-depth", "8", "-seed", str(seed())])
